@@ -12,6 +12,7 @@ import heapq
 import itertools
 
 from framework import Issue
+import fam_borrow_send
 from world import Item, Susp, UserBaseExc, UserExc, asyncstdlib, canon, drive, exc_name, user_exc
 
 A = asyncstdlib
@@ -708,6 +709,8 @@ def _key_of(case):
 
 
 def observe(case):
+    if case.get("family") == "borrowsend":
+        return fam_borrow_send.observe(case)
     if case.get("family") == "conc":
         return _observe_conc(case)
     if case.get("family") == "coreborrow":
@@ -718,6 +721,8 @@ def observe(case):
 
 
 def model_request(case):
+    if case.get("family") == "borrowsend":
+        return fam_borrow_send.model_request(case)
     if case.get("family") in ("conc", "coreborrow"):
         return None
     hit = _CACHE.get(_key_of(case))
@@ -851,6 +856,8 @@ def oracle(case, obs):
 
 
 def judge(case, obs, model):
+    if case.get("family") == "borrowsend":
+        return fam_borrow_send.judge(case, obs, model)
     if case.get("family") == "conc":
         return _judge_conc(case, obs)
     if case.get("family") == "coreborrow":
@@ -981,6 +988,8 @@ def ref_issues(case, obs):
 
 
 def features(case, obs):
+    if case.get("family") == "borrowsend":
+        return fam_borrow_send.features(case, obs)
     if case.get("family") == "coreborrow":
         return ["family=coreborrow", "coreborrow:" + case["tool"][0], "u=" + case["u"]["kind"]]
     if case.get("family") == "conc":
@@ -1013,6 +1022,8 @@ def features(case, obs):
 
 
 def nontrivial(case, obs):
+    if case.get("family") == "borrowsend":
+        return fam_borrow_send.nontrivial(case, obs)
     if case.get("family") == "coreborrow":
         return obs["core"]["pulls"] > 0
     if case.get("family") == "conc":
@@ -1126,6 +1137,8 @@ def cases(tier, rng):
     quick = tier == "quick"
     yield from _conc_cases()
     yield from _coreborrow_cases()
+    # handle trees with asend / athrow / scope exits (Machines/BorrowSend.lean)
+    yield from fam_borrow_send.cases(rng, 2000 if quick else 30000)
     small_tools = [{"name": "islice", "take": 1, "fin": "close", "p": {"n": 2}}]
     n = 0
     for seq in exhaustive(5 if quick else 6, small_tools):
